@@ -1,0 +1,16 @@
+//go:build verif
+
+package vm
+
+import "github.com/elk-language/elk/value"
+
+// VerifInstructionHook, when set, is called before every instruction the VM executes with
+// the running function, the offset of the instruction and the operand stack depth
+// relative to the frame pointer. Used by the external verification harness only.
+var VerifInstructionHook func(fn *BytecodeFunction, ip int, depth int)
+
+func (vm *Thread) verifBeforeInstruction() {
+	if h := VerifInstructionHook; h != nil {
+		h(vm.bytecode, vm.ipOffset(), (int(vm.sp)-int(vm.fp))/int(value.ValueSize))
+	}
+}
